@@ -129,9 +129,10 @@ abbrev Join := Proc → St → Node → IgSt → List Tok → Bool
 /-- the decision procedure of a policy: it never touches the state -/
 def Join.ready (J : Join) : Ready := fun p s n g work => (J p s n g work, s)
 
-/-- earliest allowed release point of gateway `n` (reachability) -/
+/-- earliest allowed release point of gateway `n`: no live token can still arrive on an EMPTY incoming flow (reachability);
+a gateway with at most one incoming flow joins nothing — the flow that holds the arriving token is its only one -/
 def earlyAt (p : Proc) (s : St) (n : Node) (g : IgSt) (work : List Tok) : Bool :=
-  !upstreamLive p s n.id work g.arrived
+  n.ins.length ≤ 1 || !upstreamLive p s n.id work g.arrived
 
 /-- **The interval.** A policy is admissible when it never lets an idle gateway synchronise, never releases before
 the earliest allowed point, and always releases at the latest allowed one. -/
